@@ -30,11 +30,15 @@ type Config struct {
 	SessionId     string `json:"session_id"`
 	Root          string `json:"root"`
 	MenuSeparator string `json:"menu_separator,omitempty"`
+	// ResetOnEmptyInput mirrors engine.Config.ResetOnEmptyInput
+	ResetOnEmptyInput bool `json:"reset_on_empty_input,omitempty"`
+	// First installs the application's "_first" function with Engine.WithFirst
+	First bool `json:"first,omitempty"`
 }
 
 func (c Config) Engine() engine.Config {
 	return engine.Config{OutputSize: c.OutputSize, CacheSize: c.CacheSize, FlagCount: c.FlagCount, Language: c.Language,
-		SessionId: c.SessionId, Root: c.Root, MenuSeparator: c.MenuSeparator}
+		SessionId: c.SessionId, Root: c.Root, MenuSeparator: c.MenuSeparator, ResetOnEmptyInput: c.ResetOnEmptyInput}
 }
 
 // StateSnap / CacheSnap are comparable copies of the exported session state.
@@ -295,6 +299,9 @@ func NewLongLived(a *App, cfg Config) *LongLived {
 		d.Ca = d.Ca.WithCacheSize(cfg.CacheSize)
 	}
 	d.En = engine.NewEngine(cfg.Engine(), d.Res).WithState(d.St).WithMemory(d.Ca)
+	if cfg.First && a.Funcs["_first"] != nil {
+		d.En = d.En.WithFirst(d.Res.FirstFunc())
+	}
 	return d
 }
 
@@ -381,6 +388,9 @@ func (d *PerRequest) Request(input []byte) *Obs {
 	pv, stack := vk.Guard(func() {
 		pe = persist.NewPersister(store)
 		en := engine.NewEngine(d.Cfg.Engine(), d.Res).WithPersister(pe)
+		if d.Cfg.First && d.Res.App.Funcs["_first"] != nil {
+			en = en.WithFirst(d.Res.FirstFunc())
+		}
 		if d.PreFlush {
 			var buf bytes.Buffer
 			_, ferr := en.Flush(ctx, &buf)
